@@ -157,7 +157,7 @@ class CallMixin:
             return self.accept(fv.self_val, args, kwargs, node)
         depth = len(self.stack)
         on_stack = sum(1 for f in self.stack if f.func is not None and f.func.qualname == func.qualname)
-        if depth >= self.max_depth or on_stack >= 1:
+        if depth >= self.max_depth or on_stack >= getattr(self, "max_recursion", 1):
             self.emit("call", node, callee=func.qualname, args=args, kwargs=kwargs, resolved=True,
                       inlined=False, recursive=on_stack >= 1, self_val=fv.self_val)
             return Term("call", (func.qualname,) + tuple(a for a in args if isinstance(a, V)),
